@@ -1072,6 +1072,51 @@ theorem m2q2m_roundtrip (le : K → K → Bool) (r sqrt2 pnorm : K) (m : Mat K) 
 
 end m2q2m
 
+section q2m2q
+variable {K : Type} [Field K] [DecidableEq K]
+
+/-- **Quaternion → Matrix3 → Quaternion**: for a unit quaternion q, `from_matrix3(to_matrix3 q)` (textbook matrix
+    `toMatRef q`, which `to_matrix3_eq_ref` identifies with the code's) is ±q: it equals `c·q` with c² = 1,
+    whichever diagonal entry is selected, provided r·r = r_sq ≠ 0 -/
+theorem q2m2q_roundtrip (le : K → K → Bool) (r : K) (q q0 : Q4 K) (hq : qNormSq q = 1) (h2 : (2 : K) ≠ 0)
+    (hr : r * r = fromMatrix3Rsq le (toMatRef q)) (hz : r ≠ 0) :
+    ∃ c : K, c * c = 1 ∧ fromMatrix3 le r (toMatRef q) q0 = qScale c q := by
+  have hi := argmax3_lt le (toMatRef q 0 0) (toMatRef q 1 1) (toMatRef q 2 2)
+  have two : (1 + 1 : K) = 2 := one_add_one_eq_two
+  unfold fromMatrix3Rsq at hr
+  unfold fromMatrix3
+  simp only [hz, decide_false, Bool.false_eq_true, ↓reduceIte]
+  generalize argmax3 le (toMatRef q 0 0) (toMatRef q 1 1) (toMatRef q 2 2) = i at hi hr
+  have e := qNormSq_eq q
+  rw [hq] at e
+  match i, hi with
+  | 0, _ =>
+    refine ⟨2 * q.x / r, ?_, ?_⟩
+    · simp only [toMatRef, hq, two] at hr
+      field_simp
+      linear_combination (-1 : K) * hr
+    · simp only [toMatRef, hq, two, Q4.setAt, qScale, Q4.mk.injEq]
+      simp only [toMatRef, hq, two] at hr
+      refine ⟨?_, ?_, ?_, ?_⟩ <;> field_simp <;> ring1
+  | 1, _ =>
+    refine ⟨2 * q.y / r, ?_, ?_⟩
+    · simp only [toMatRef, hq, two] at hr
+      field_simp
+      linear_combination (-1 : K) * hr
+    · simp only [toMatRef, hq, two, Q4.setAt, qScale, Q4.mk.injEq]
+      simp only [toMatRef, hq, two] at hr
+      refine ⟨?_, ?_, ?_, ?_⟩ <;> field_simp <;> ring1
+  | 2, _ =>
+    refine ⟨2 * q.z / r, ?_, ?_⟩
+    · simp only [toMatRef, hq, two] at hr
+      field_simp
+      linear_combination (-1 : K) * hr
+    · simp only [toMatRef, hq, two, Q4.setAt, qScale, Q4.mk.injEq]
+      simp only [toMatRef, hq, two] at hr
+      refine ⟨?_, ?_, ?_, ?_⟩ <;> field_simp <;> ring1
+
+end q2m2q
+
 /-! ## to_euler (matrix3.py:522-589): from_euler ∘ to_euler = id -/
 section toeuler
 variable {K : Type} [Field K] [DecidableEq K]
@@ -1334,6 +1379,70 @@ theorem from_rotation_spec (half : SC K) (am : Bool) (v : VecE K) (nrm : K)
       linear_combination (-2 * (nrm * nrm)) * hh + (4 * half.s * half.s) * hn
 
 end fromRot
+
+/-! ## spin and sep: arithmetic cores (no correspondence tie: arcsin / the replacement of zero vectors are T1) -/
+section spinsep
+variable {K : Type} [Field K] [DecidableEq K]
+
+/-- **spin = Rodrigues' formula**: for a unit pole z (‖z‖² = 1), with r = rx the norm of the perpendicular part
+    (r² = ‖perp‖² ≠ 0): result = cos·perp + sin·(z × perp) + (v·z) z; it keeps the component along the pole and the
+    norm of the vector -/
+theorem spin_rodrigues (v z : Nat → K) (a : SC K) (r : K) (hz : vdot 3 z z = 1)
+    (ha : a.s * a.s + a.c * a.c = 1)
+    (hr : r * r = vdot 3 (fun i => v i - vdot 3 v z * z i) (fun i => v i - vdot 3 v z * z i)) (hr0 : r ≠ 0) :
+    (∀ i, i < 3 → spinCore v z a r r i =
+        a.c * (v i - vdot 3 v z * z i) + a.s * crossV z (fun j => v j - vdot 3 v z * z j) i + vdot 3 v z * z i) ∧
+    vdot 3 (spinCore v z a r r) z = vdot 3 v z ∧
+    vdot 3 (spinCore v z a r r) (spinCore v z a r r) = vdot 3 v v := by
+  have nz : ¬ ((v 0 - vdot 3 v z * z 0 = 0) ∧ (v 1 - vdot 3 v z * z 1 = 0) ∧ (v 2 - vdot 3 v z * z 2 = 0)) := by
+    rintro ⟨p0, p1, p2⟩
+    rw [vdot3] at hr; simp only [p0, p1, p2] at hr
+    have : r * r = 0 := by rw [hr]; ring
+    exact hr0 (mul_self_eq_zero.mp this)
+  have core : ∀ i, spinCore v z a r r i =
+      a.c * (v i - vdot 3 v z * z i) + a.s * crossV z (fun j => v j - vdot 3 v z * z j) i + vdot 3 v z * z i := by
+    intro i
+    have hdec : (decide (v 0 - vdot 3 v z * z 0 = 0) && decide (v 1 - vdot 3 v z * z 1 = 0) &&
+        decide (v 2 - vdot 3 v z * z 2 = 0)) = false := by
+      by_contra hc
+      simp only [Bool.not_eq_false, Bool.and_eq_true, decide_eq_true_eq] at hc
+      exact nz ⟨hc.1.1, hc.1.2, hc.2⟩
+    simp only [spinCore, hdec, Bool.false_eq_true, ↓reduceIte, hr0]
+    match i with
+    | 0 => simp only [crossV]; field_simp
+    | 1 => simp only [crossV]; field_simp
+    | (n + 2) => simp only [crossV]; field_simp
+  refine ⟨fun i _ => core i, ?_, ?_⟩
+  · rw [vdot3] at hz ⊢
+    rw [core 0, core 1, core 2]
+    simp only [crossV, vdot3]
+    linear_combination (v 0 * z 0 + v 1 * z 1 + v 2 * z 2) * (1 - a.c) * hz
+  · rw [vdot3, vdot3]
+    rw [core 0, core 1, core 2]
+    rw [vdot3] at hz
+    simp only [crossV]
+    have hd := vdot3 v z
+    generalize vdot 3 v z = d at hd ⊢
+    linear_combination
+      ((v 0 - d * z 0) * (v 0 - d * z 0) + (v 1 - d * z 1) * (v 1 - d * z 1) + (v 2 - d * z 2) * (v 2 - d * z 2)) * ha
+      + (a.s * a.s * ((v 0 - d * z 0) * (v 0 - d * z 0) + (v 1 - d * z 1) * (v 1 - d * z 1) + (v 2 - d * z 2) * (v 2 - d * z 2))) * hz
+      + (-(a.s * a.s) * ((v 0 - d * z 0) * z 0 + (v 1 - d * z 1) * z 1 + (v 2 - d * z 2) * z 2) + 2 * a.c * d - 2 * d)
+          * (-hd - d * hz)
+
+/-- **sep**: for unit vectors a, b, a sign σ = ±1 and d = ‖a − σ b‖ (d² = ‖a − σb‖²), the cosine of the angle the code
+    assembles from `2σ·arcsin(d/2) + (σ<0)·π` is the dot product a·b — for either sign, so the supplementary-angle
+    trick used near π does not change the result -/
+theorem sep_cosine (a b : Nat → K) (sign d : K) (h2 : (2 : K) ≠ 0) (hs : sign * sign = 1)
+    (ha : vdot 3 a a = 1) (hb : vdot 3 b b = 1)
+    (hd : d * d = vdot 3 (fun i => a i - sign * b i) (fun i => a i - sign * b i)) :
+    sepCos sign d = vdot 3 a b := by
+  rw [vdot3] at ha hb hd ⊢
+  have two : (1 + 1 : K) = 2 := one_add_one_eq_two
+  simp only [sepCos, two]
+  field_simp
+  linear_combination (-sign) * hd + (2 * (a 0 * b 0 + a 1 * b 1 + a 2 * b 2) - sign) * hs - sign * ha - sign * (sign * sign) * hb
+
+end spinsep
 
 /-! ## masks of the operands carry into every result; leading shapes broadcast -/
 section lifting
